@@ -4,6 +4,8 @@
 #include <etl/chrono.hpp>
 
 #include <chrono>
+#include <string>
+#include <vector>
 
 using proto::Line;
 namespace ec = etl::chrono;
@@ -19,6 +21,124 @@ static std::string with_siblings(std::string primary, std::initializer_list<std:
     for (auto const& o : others)
         if (o != primary) r += "!" + o;
     return r;
+}
+
+static std::string with_siblings(std::string primary, std::vector<std::string> const& others)
+{
+    std::string r = primary;
+    for (auto const& o : others)
+        if (o != primary) r += "!" + o;
+    return r;
+}
+
+// the calendar types of etl::chrono and of std::chrono under common names
+struct EtlCal {
+    using year = ec::year; using month = ec::month; using day = ec::day; using weekday = ec::weekday;
+    using weekday_indexed = ec::weekday_indexed; using weekday_last = ec::weekday_last; using month_day_last = ec::month_day_last;
+    using year_month = ec::year_month; using year_month_day = ec::year_month_day; using year_month_day_last = ec::year_month_day_last;
+    using year_month_weekday = ec::year_month_weekday; using year_month_weekday_last = ec::year_month_weekday_last;
+    using months = ec::months; using years = ec::years;
+};
+struct StdCal {
+    using year = sc::year; using month = sc::month; using day = sc::day; using weekday = sc::weekday;
+    using weekday_indexed = sc::weekday_indexed; using weekday_last = sc::weekday_last; using month_day_last = sc::month_day_last;
+    using year_month = sc::year_month; using year_month_day = sc::year_month_day; using year_month_day_last = sc::year_month_day_last;
+    using year_month_weekday = sc::year_month_weekday; using year_month_weekday_last = sc::year_month_weekday_last;
+    using months = sc::months; using years = sc::years;
+};
+
+// one variant's result without any string work (templates instantiated 2 x 11 times: keep them cheap to compile):
+// year, month, the third field as a number, whether the third field is the one put in, whether a compound form returned
+// a reference to the changed object
+struct Res {
+    int y;
+    unsigned m;
+    unsigned f;
+    bool kept;
+    bool ref;
+};
+
+// the five spellings of `x + d`: x + d, d + x, x - (-d), x += d, x -= (-d)  (nd = -d)
+template <typename T, typename D, typename G>
+[[gnu::noinline]] static void five(std::vector<Res>& res, T const& x, D const& d, D const& nd, G get)
+{
+    res.push_back(get(x + d));
+    res.push_back(get(d + x));
+    res.push_back(get(x - nd));
+    {
+        auto e  = x;
+        auto& r = (e += d);
+        auto v  = get(e);
+        v.ref   = &r == &e;
+        res.push_back(v);
+    }
+    {
+        auto e  = x;
+        auto& r = (e -= nd);
+        auto v  = get(e);
+        v.ref   = &r == &e;
+        res.push_back(v);
+    }
+}
+
+// [time.cal.ym.nonmembers] ... [time.cal.ymwdlast.nonmembers]: (y, m) + k months (or + k years) through year_month,
+// year_month_day (day d), year_month_day_last, year_month_weekday (weekday w, index i), year_month_weekday_last (weekday w);
+// for years additionally through year itself (first five entries)
+template <typename C, typename D>
+[[gnu::noinline]] static std::vector<Res> plus_all(int y, unsigned m, unsigned d, unsigned w, unsigned i, int k, bool with_year)
+{
+    auto const Y  = typename C::year{y};
+    auto const M  = typename C::month{m};
+    auto const Dy = typename C::day{d};
+    auto const W  = typename C::weekday{w};
+    auto const WI = typename C::weekday_indexed{W, i};
+    auto const WL = typename C::weekday_last{W};
+    auto const dd = D{k};
+    auto const nd = D{-k};
+    std::vector<Res> v;
+    if constexpr (std::is_same_v<D, typename C::years>) {
+        if (with_year) five(v, Y, dd, nd, [&](auto const& x) { return Res{int{x}, 0U, 0U, true, true}; });
+    }
+    five(v, typename C::year_month{Y, M}, dd, nd, [&](auto const& x) { return Res{int{x.year()}, unsigned{x.month()}, 0U, true, true}; });
+    five(v, typename C::year_month_day{Y, M, Dy}, dd, nd, [&](auto const& x) { return Res{int{x.year()}, unsigned{x.month()}, unsigned{x.day()}, x.day() == Dy, true}; });
+    five(v, typename C::year_month_day_last{Y, typename C::month_day_last{M}}, dd, nd, [&](auto const& x) {
+        return Res{int{x.year()}, unsigned{x.month()}, unsigned{x.month_day_last().month()}, x.month_day_last().month() == x.month(), true};
+    });
+    five(v, typename C::year_month_weekday{Y, M, WI}, dd, nd, [&](auto const& x) {
+        return Res{int{x.year()}, unsigned{x.month()}, x.weekday().c_encoding() + 8 * x.index(), x.weekday() == W && x.index() == WI.index() && x.weekday_indexed() == WI, true};
+    });
+    five(v, typename C::year_month_weekday_last{Y, M, WL}, dd, nd, [&](auto const& x) {
+        return Res{int{x.year()}, unsigned{x.month()}, x.weekday().c_encoding(), x.weekday() == W && x.weekday_last() == WL, true};
+    });
+    return v;
+}
+
+static char const* const field_tag[] = {"", "day", "mdl", "wdi", "wdl"};
+
+// months: primary value year_month + months as "y,m"; every other variant is listed only when it differs (a lost day /
+// weekday / index is shown as ",<field>=<value>")
+[[gnu::noinline]] static std::string fold_months(std::vector<Res> const& v)
+{
+    std::vector<std::string> s;
+    for (std::size_t n = 0; n < v.size(); ++n)
+        s.push_back(t2(v[n].y, v[n].m) + (v[n].kept ? "" : std::string(",") + field_tag[n / 5] + "=" + std::to_string(v[n].f)) + (v[n].ref ? "" : ",ref"));
+    auto const primary = s.front();
+    s.erase(s.begin());
+    return with_siblings(primary, s);
+}
+
+// years: primary value year + years as "y"; the month (month `m` was put in) must survive as well
+[[gnu::noinline]] static std::string fold_years(std::vector<Res> const& v, unsigned m)
+{
+    std::vector<std::string> s;
+    for (std::size_t n = 0; n < v.size(); ++n) {
+        auto const t = n < 5 ? std::size_t{0} : n / 5 - 1;
+        s.push_back(std::to_string(v[n].y) + ((n < 5 || v[n].m == m) ? "" : ",m=" + std::to_string(v[n].m))
+                    + (v[n].kept ? "" : std::string(",") + field_tag[t] + "=" + std::to_string(v[n].f)) + (v[n].ref ? "" : ",ref"));
+    }
+    auto const primary = s.front();
+    s.erase(s.begin());
+    return with_siblings(primary, s);
 }
 
 static std::string step(Line const& l)
@@ -80,94 +200,46 @@ static std::string step(Line const& l)
         auto s = sc::month{static_cast<unsigned>(l.i("a"))} - sc::month{static_cast<unsigned>(l.i("b"))};
         return out(std::to_string(e.count()), std::to_string(s.count()));
     }
-    if (l.op == "ym_plus") {
+    if (l.op == "ym_plus") {       // (y, m [, day d, weekday w, index i]) + k months: every variant of every type, etl and std
         auto y = static_cast<int>(l.i("y"));
         auto m = static_cast<unsigned>(l.i("m"));
         auto k = static_cast<int>(l.i("k"));
-        ec::year_month ym{ec::year{y}, ec::month{m}};
-        auto e1 = ym + ec::months{k};
-        auto e2 = ec::months{k} + ym;
-        auto e3 = ym - ec::months{-k};
-        auto e4 = ym;
-        e4 += ec::months{k};
-        // the other fields (day 28, weekday Wednesday, index 3) must survive month arithmetic unchanged
-        auto const wdi = ec::weekday_indexed{ec::weekday{3}, 3};
-        auto const wdl = ec::weekday_last{ec::weekday{3}};
-        auto e5  = ec::year_month_day{ec::year{y}, ec::month{m}, ec::day{28}} + ec::months{k};
-        auto e5b = ec::months{k} + ec::year_month_day{ec::year{y}, ec::month{m}, ec::day{28}};
-        auto e6  = ec::year_month_day_last{ec::year{y}, ec::month_day_last{ec::month{m}}} + ec::months{k};
-        auto e6b = ec::months{k} + ec::year_month_day_last{ec::year{y}, ec::month_day_last{ec::month{m}}};
-        auto e6c = ec::year_month_day_last{ec::year{y}, ec::month_day_last{ec::month{m}}} - ec::months{-k};
-        auto e7  = ec::year_month_weekday{ec::year{y}, ec::month{m}, wdi} + ec::months{k};
-        auto e7b = ec::months{k} + ec::year_month_weekday{ec::year{y}, ec::month{m}, wdi};
-        auto e7c = ec::year_month_weekday{ec::year{y}, ec::month{m}, wdi} - ec::months{-k};
-        auto e8  = ec::year_month_weekday_last{ec::year{y}, ec::month{m}, wdl} + ec::months{k};
-        auto e8b = ec::months{k} + ec::year_month_weekday_last{ec::year{y}, ec::month{m}, wdl};
-        auto e8c = ec::year_month_weekday_last{ec::year{y}, ec::month{m}, wdl} - ec::months{-k};
-        auto e9  = ec::year_month_day{ec::year{y}, ec::month{m}, ec::day{28}};
-        e9 -= ec::months{-k};
-        auto e9b = ec::year_month_day{ec::year{y}, ec::month{m}, ec::day{28}} - ec::months{-k};
-        auto e10 = ec::year_month_weekday_last{ec::year{y}, ec::month{m}, wdl};
-        e10 -= ec::months{-k};
-        auto e11 = ec::year_month_weekday{ec::year{y}, ec::month{m}, wdi};
-        e11 += ec::months{k};
-        auto e12 = ec::year_month_day_last{ec::year{y}, ec::month_day_last{ec::month{m}}};
-        e12 += ec::months{k};
-        auto s1 = sc::year_month{sc::year{y}, sc::month{m}} + sc::months{k};
-        auto f  = [](auto const& x) { return t2(int{x.year()}, unsigned{x.month()}); };
-        auto fd = [&](ec::year_month_day const& x) { return f(x) + (unsigned{x.day()} == 28 ? "" : ",day=" + std::to_string(unsigned{x.day()})); };
-        auto fw = [&](ec::year_month_weekday const& x) {
-            return f(x) + ((x.weekday().c_encoding() == 3 && x.index() == 3) ? "" : ",wdi=" + std::to_string(x.weekday().c_encoding()) + "[" + std::to_string(x.index()) + "]");
-        };
-        auto fl = [&](ec::year_month_weekday_last const& x) { return f(x) + (x.weekday().c_encoding() == 3 ? "" : ",wdl=" + std::to_string(x.weekday().c_encoding())); };
-        return out(with_siblings(f(e1), {f(e2), f(e3), f(e4), fd(e5), fd(e5b), f(e6), f(e6b), f(e6c), fw(e7), fw(e7b), fw(e7c), fl(e8), fl(e8b), fl(e8c),
-                       fd(e9), fd(e9b), fl(e10), fw(e11), f(e12)}),
-            f(s1));
+        auto d = static_cast<unsigned>(l.i("d", 28));
+        auto w = static_cast<unsigned>(l.i("w", 3));
+        auto i = static_cast<unsigned>(l.i("i", 3));
+        return out(fold_months(plus_all<EtlCal, ec::months>(y, m, d, w, i, k, false)), fold_months(plus_all<StdCal, sc::months>(y, m, d, w, i, k, false)));
     }
-    if (l.op == "year_plus") {
+    if (l.op == "year_plus") {     // (y [, month m, day d, weekday w, index i]) + k years
         auto y = static_cast<int>(l.i("y"));
         auto k = static_cast<int>(l.i("k"));
-        auto const wdi = ec::weekday_indexed{ec::weekday{3}, 3};
-        auto const wdl = ec::weekday_last{ec::weekday{3}};
-        auto e1 = ec::year{y} + ec::years{k};
-        auto e2 = ec::years{k} + ec::year{y};
-        auto e3 = ec::year{y};
-        e3 += ec::years{k};
-        auto e3b = ec::year{y} - ec::years{-k};
-        auto e3c = ec::year{y};
-        e3c -= ec::years{-k};
-        auto e4  = ec::year_month{ec::year{y}, ec::month{7}} + ec::years{k};
-        auto e4b = ec::years{k} + ec::year_month{ec::year{y}, ec::month{7}};
-        auto e4c = ec::year_month{ec::year{y}, ec::month{7}} - ec::years{-k};
-        auto e4d = ec::year_month{ec::year{y}, ec::month{7}};
-        e4d += ec::years{k};
-        auto e5  = ec::year_month_day{ec::year{y}, ec::month{7}, ec::day{28}} + ec::years{k};
-        auto e5b = ec::years{k} + ec::year_month_day{ec::year{y}, ec::month{7}, ec::day{28}};
-        auto e5c = ec::year_month_day{ec::year{y}, ec::month{7}, ec::day{28}} - ec::years{-k};
-        auto e5d = ec::year_month_day{ec::year{y}, ec::month{7}, ec::day{28}};
-        e5d -= ec::years{-k};
-        auto e6  = ec::year_month_day_last{ec::year{y}, ec::month_day_last{ec::month{7}}} + ec::years{k};
-        auto e6b = ec::years{k} + ec::year_month_day_last{ec::year{y}, ec::month_day_last{ec::month{7}}};
-        auto e6c = ec::year_month_day_last{ec::year{y}, ec::month_day_last{ec::month{7}}} - ec::years{-k};
-        auto e7  = ec::year_month_weekday{ec::year{y}, ec::month{7}, wdi} + ec::years{k};
-        auto e7b = ec::years{k} + ec::year_month_weekday{ec::year{y}, ec::month{7}, wdi};
-        auto e7c = ec::year_month_weekday{ec::year{y}, ec::month{7}, wdi} - ec::years{-k};
-        auto e8  = ec::year_month_weekday_last{ec::year{y}, ec::month{7}, wdl} + ec::years{k};
-        auto e8b = ec::years{k} + ec::year_month_weekday_last{ec::year{y}, ec::month{7}, wdl};
-        auto e8c = ec::year_month_weekday_last{ec::year{y}, ec::month{7}, wdl} - ec::years{-k};
-        auto s1 = sc::year{y} + sc::years{k};
-        auto g  = [](auto const& x) { return std::to_string(int{x.year()}) + (unsigned{x.month()} == 7 ? "" : ",m=" + std::to_string(unsigned{x.month()})); };
-        auto gd = [&](ec::year_month_day const& x) { return g(x) + (unsigned{x.day()} == 28 ? "" : ",day=" + std::to_string(unsigned{x.day()})); };
-        auto gw = [&](ec::year_month_weekday const& x) { return g(x) + ((x.weekday().c_encoding() == 3 && x.index() == 3) ? "" : ",wdi"); };
-        auto gl = [&](ec::year_month_weekday_last const& x) { return g(x) + (x.weekday().c_encoding() == 3 ? "" : ",wdl"); };
-        return out(with_siblings(std::to_string(int{e1}), {std::to_string(int{e2}), std::to_string(int{e3}), std::to_string(int{e3b}), std::to_string(int{e3c}),
-                       g(e4), g(e4b), g(e4c), g(e4d), gd(e5), gd(e5b), gd(e5c), gd(e5d), g(e6), g(e6b), g(e6c), gw(e7), gw(e7b), gw(e7c), gl(e8), gl(e8b), gl(e8c)}),
-            std::to_string(int{s1}));
+        auto m = static_cast<unsigned>(l.i("m", 7));
+        auto d = static_cast<unsigned>(l.i("d", 28));
+        auto w = static_cast<unsigned>(l.i("w", 3));
+        auto i = static_cast<unsigned>(l.i("i", 3));
+        auto const mm = unsigned{ec::month{m}};
+        return out(fold_years(plus_all<EtlCal, ec::years>(y, m, d, w, i, k, true), mm), fold_years(plus_all<StdCal, sc::years>(y, m, d, w, i, k, true), mm));
     }
     if (l.op == "year_diff") {
         auto e = ec::year{static_cast<int>(l.i("a"))} - ec::year{static_cast<int>(l.i("b"))};
         auto s = sc::year{static_cast<int>(l.i("a"))} - sc::year{static_cast<int>(l.i("b"))};
         return out(std::to_string(e.count()), std::to_string(s.count()));
+    }
+    if (l.op == "ym_diff") {       // year_month - year_month, and ym2 + (ym1 - ym2); "missing" when the operator does not exist
+        auto y1 = static_cast<int>(l.i("y1"));
+        auto m1 = static_cast<unsigned>(l.i("m1"));
+        auto y2 = static_cast<int>(l.i("y2"));
+        auto m2 = static_cast<unsigned>(l.i("m2"));
+        auto f = [](auto const& a, auto const& b) -> std::string {
+            if constexpr (requires { (a - b).count(); }) {
+                auto const k = a - b;
+                auto const r = b + k;
+                return std::to_string(k.count()) + "," + t2(int{r.year()}, unsigned{r.month()});
+            } else {
+                return "missing";
+            }
+        };
+        return out(f(ec::year_month{ec::year{y1}, ec::month{m1}}, ec::year_month{ec::year{y2}, ec::month{m2}}),
+            f(sc::year_month{sc::year{y1}, sc::month{m1}}, sc::year_month{sc::year{y2}, sc::month{m2}}));
     }
     if (l.op == "incdec") {   // ++x, x++, --x, x-- of day / month / year / weekday; iso_encoding
         auto v = static_cast<int>(l.i("v"));
